@@ -87,7 +87,7 @@ def run_impl(histories, profile="debug", snap=False, timeout=600, exe=None, env=
             stderr = p.stderr
         except subprocess.TimeoutExpired as ex:
             rc = "timeout"
-            crashes += 6      # at most four hangs per batch
+            crashes += 10     # at most two hangs per batch
             stdout = (ex.stdout or b"").decode(errors="replace") if isinstance(ex.stdout, bytes) else (ex.stdout or "")
             stderr = ""
         part = parse_output(stdout)
@@ -105,14 +105,14 @@ def run_impl(histories, profile="debug", snap=False, timeout=600, exe=None, env=
             # a loaded machine can make a healthy batch overrun: the suspect history alone, with a generous limit, decides
             single = [h for h in todo if h[0] == crashed]
             try:
-                p2 = subprocess.run(args, input=format_histories(single), capture_output=True, text=True, timeout=300,
+                p2 = subprocess.run(args, input=format_histories(single), capture_output=True, text=True, timeout=90,
                                     env=env, errors="replace")
                 if p2.returncode == 0:
                     part.update(parse_output(p2.stdout))
                     res.update(part)
                     idx = [h for h, _ in todo].index(crashed)
                     todo = todo[idx + 1:]
-                    crashes -= 6
+                    crashes -= 10
                     continue
             except subprocess.TimeoutExpired:
                 pass
